@@ -68,12 +68,16 @@ def validate(v, trace_file, cfg, label):
     rp = vlib.scratch("replay-") / "trace.ndjson"
     rp.write_text("\n".join(json.dumps(e) for e in (bad_trace or events)) + "\n")
     if r["kind"] in ("invariant", "action"):
-        detail = ""
+        detail, sig = "", r["violated"]
         if r["violated"] == "NoMismatch" and r["cex"]:
             sts = vlib.cex_states(r["cex"])
             if sts:
                 detail = " bad=" + json.dumps(sts[-1].get("bad"))
-        v.violation(r["violated"], f"{label}: invariant {r['violated']} violated on a recorded execution of the real frps at event {pos}{detail}", rp)
+                try:
+                    sig = "NoMismatch:" + sorted(sts[-1]["bad"], key=lambda t: t[1])[0][0]
+                except Exception:
+                    pass
+        v.violation(sig, f"{label}: invariant {r['violated']} violated on a recorded execution of the real frps at event {pos}{detail}", rp)
     else:
         ev = r["stuck_event"]
         v.violation("rejected:" + str(ev.get("ev") if isinstance(ev, dict) else ev),
